@@ -84,6 +84,19 @@ func FieldsFromStruct(t reflect.Type) TypesTable {
 
 			types[f.Name] = Tag{Type: f.Type}
 		}
+
+		// Resolve every collected name the way Go resolves a selector: the
+		// shallowest field wins, several fields at the shallowest depth are
+		// ambiguous, and unexported fields cannot be fetched at run time.
+		for name := range types {
+			if sf, ok := t.FieldByName(name); !ok {
+				types[name] = Tag{Ambiguous: true}
+			} else if sf.PkgPath != "" {
+				delete(types, name)
+			} else {
+				types[name] = Tag{Type: sf.Type}
+			}
+		}
 	}
 
 	return types
